@@ -16,18 +16,25 @@ TV = "translation_validation"
 
 CLAIMS = {
     "C01": dict(level=PV, ref="§7 C01, §12.1",
-        text="Kernel-checked theorems about a hand-written executable model of Metadata.__lt__, Cell.__lt__, "
-             "IncrementalCell.__lt__, the Triangle constructor and ten public operations: strict total order on "
-             "canonical metadata, sortedness, permutation, input-order independence for EVERY permutation "
+        text="44 kernel-checked theorems, none open, about a hand-written executable model of Metadata.__lt__, "
+             "Cell.__lt__, IncrementalCell.__lt__, the Triangle constructor and the public operations: strict total "
+             "order on canonical metadata, sortedness, permutation, input-order independence for EVERY permutation "
              "(ofCells_perm_invariant, ofCells_coords_perm_invariant), contiguity and order of slices, and closure of "
-             "the canonical form under every chain of the modelled operations (run_canonical, induction over the op "
-             "list). Tied to /repo each run by probed attribute-order tables (theorem tables_order over regenerated "
-             "definitions) and by a differential correspondence (constructor under permutations x list/tuple/generator, "
-             "sorted(metadata) and the < matrix, random operation chains) with the Lean Spec predicate evaluated on the "
-             "implementation's outputs; for ~25 further public operations the Spec runs on the implementation's output "
-             "after each step of random chains.",
-        note=COMMON_NOTE + "Operations beyond the ten modelled ones are covered by the Spec predicate on implementation "
-             "outputs only (no closure theorem for them).",
+             "the canonical form (sorted, one cell class, every cell satisfies the constructor's date rules) under "
+             "every chain of operations: run_canonical over ten basic operations and run2_canonical over all 34 "
+             "modelled public operations (to_incremental, to_cumulative, aggregate, summarize, merge, coalesce, "
+             "add_statics, period_merge, make_right_triangle, make_right_diagonal, fill_forward_gaps, backfill, full "
+             "clip, 3-index getitem, split, slices, convert_currency, disaggregate_experience, "
+             "accident_quarter_to_policy_year, blend, thin, bootstrap, moment_match, JSON round trip, ...), by "
+             "induction over the op list. Tied to /repo each run by probed attribute-order tables (theorem "
+             "tables_order over regenerated definitions) and by a differential correspondence: constructor under "
+             "permutations x list/tuple/generator, sorted(metadata) and the < matrix, random chains over the modelled "
+             "operations compared with the compiled model, and the Lean Spec predicate evaluated on the "
+             "implementation's output after each step of chains over ~30 public operations (incl. the ones without a "
+             "model: derive_* with functions, period merges, duplicates).",
+        note=COMMON_NOTE + "Operations without a Triangle->Triangle model (derive_fields/derive_metadata/replace with "
+             "function arguments, frame/CSV/binary readers) are covered by the Spec predicate on implementation "
+             "outputs only.",
         tech="Lean 4 proof (order laws by compareLex structure, uniqueness of stable sort, induction over op lists) + "
              "probed tables + differential correspondence with compiled Lean model"),
     "C02": dict(level=PV, ref="§7 C02",
